@@ -331,7 +331,10 @@ func (g *projGen) perturb(m *pMethod, structNames []string) string {
 		if m.Annots[i].Name == "Security" {
 			props["scopes"] = rng.Pick(r, []any{nil, []any{nil}, []any{"a", nil}, "x", 5})
 		} else {
-			props[rng.Pick(r, []string{"name", "validate"})] = rng.Pick(r, []any{nil, 5, []any{}, true})
+			props[rng.Pick(r, []string{"name", "validate"})] = rng.Pick(r, []any{nil, 5, []any{}, true, []any{"識別子"}})
+			if r.Bool() {
+				props["description"] = "必須 – é" // multi-byte text inside the properties object
+			}
 		}
 		m.Annots[i].Props = props
 	case "second-body":
@@ -418,6 +421,7 @@ func genProject(r *rng.R, nPerturb int) (pProject, []string) {
 	nc := 1 + r.Intn(3)
 	for ci := 0; ci < nc; ci++ {
 		c := pController{Name: fmt.Sprintf("Ctl%d", ci), Pkg: "ctl", File: rng.Pick(r, []string{"a.go", "b.go"}), Grouped: r.Chance(1, 5)}
+		c.FieldFirst = !c.Grouped && r.Chance(1, 5)
 		if r.Chance(1, 3) {
 			c.Free = []string{"Controller docs"}
 		}
